@@ -716,6 +716,10 @@ def score_case(rng):
         elif how == "superseded":
             # an inbound connection supersedes the Opening attempt; the late open failure still concerns its addresses
             ops += [f"ev established {p} c2 {inbound} listener", "accepted c2 ok", f"scores {p}"]
+            if rng.random() < 0.8:
+                # … and arrives: the addresses that were dialed and failed are scored although the manager no longer
+                # tracks the attempt (seeded change C10-g1)
+                ops += [f"ev openfail c1 errs=" + openfail_errs(rng, book), f"scores {p}"]
         else:
             x = rng.choice(book)
             errs = [y for y in book if y != x and rng.random() < 0.6]
